@@ -658,6 +658,12 @@ func writeReplay(cr *checkRun, r *OblResult, sr *SiteResult) string {
 		}
 	} else {
 		rep["replay"] = "solver returned " + sr.Status + " (no model); the obligation is expected to discharge and does not"
+		if bat := batteryFor(r.Obl.Prop); bat != "" {
+			if ok, detail := replayBattery(bat, rep); ok {
+				rep["replay"] = rep["replay"].(string) + "; " + detail
+				suffix = ""
+			}
+		}
 	}
 	b, _ := json.MarshalIndent(rep, "", " ")
 	os.WriteFile(file, append(b, '\n'), 0o644)
